@@ -51,17 +51,29 @@ def main():
     res["demo_fails_with_patch"] = "FAILED" in out or "panicked" in out
     res["demo_failure_excerpt"] = "\n".join(l for l in out.splitlines() if "panicked" in l or "assert" in l.lower())[:600]
     os.remove(f"{wt}/tests/seeded_demo.rs")
-    sh("git diff HEAD > /tmp/seed/current.patch", cwd=wt)
+    sh("git diff HEAD > /tmp/seed/current.patch", cwd=wt)  # noqa
     sh("git reset -q --hard HEAD && git clean -fdq tests", cwd=wt)
     sh("rm -f *.e57", cwd=wt)
-    # run the checks against /repo with the patch applied
-    st = sh("git -C /repo status --short")[1].strip()
+    # run the checks with the patch applied: against /repo itself, or (SEED_SCRATCH=1) against a
+    # scratch worktree of /repo with a scratch copy of /verif whose engine points to it
+    scratch = os.environ.get("SEED_SCRATCH") == "1"
+    repo, verif = "/repo", "/verif"
+    envx = {}
+    if scratch:
+        repo, verif = "/var/tmp/seedrepo", "/var/tmp/seedverif"
+        if not os.path.isdir(repo):
+            sh(f"git -C /repo worktree add -q --detach {repo} HEAD")
+        sh("git reset -q --hard && git checkout -q --detach main", cwd=repo)
+        sh(f"mkdir -p {verif} && rsync -a --delete --exclude .build --exclude .work --exclude .git --exclude replays --exclude evidence /verif/ {verif}/")
+        sh(f"sed -i 's|path = \"/repo\"|path = \"{repo}\"|' {verif}/engine/mc/Cargo.toml")
+        envx = {"E57_REPO": repo}
+    st = sh(f"git -C {repo} status --short")[1].strip()
     if st:
-        print("refusing: /repo has local changes:\n" + st); return 2
+        print(f"refusing: {repo} has local changes:\n" + st); return 2
     if not checks:
         man = json.load(open("/verif/MANIFEST.json"))
         checks = [c["property_id"] for c in man["checks"]]
-    rc, out = sh("git -C /repo apply /tmp/seed/current.patch")
+    rc, out = sh(f"git -C {repo} apply /tmp/seed/current.patch")
     caught = {}
     try:
         if rc != 0:
@@ -69,12 +81,12 @@ def main():
         else:
             for c in checks:
                 t0 = time.time()
-                rc, out = sh(f"./check {c} quick 2>/dev/null", cwd="/verif", timeout=900)
+                rc, out = sh(f"./check {c} quick 2>/dev/null", cwd=verif, env=envx, timeout=900)
                 sigs = [l.split("signature:")[1].strip() for l in out.splitlines() if "signature:" in l]
                 caught[c] = {"exit": rc, "violation_lines": out.count("VIOLATION property="), "signatures": sigs[:4], "wall_s": round(time.time() - t0, 1)}
                 print(f"  {c}: exit {rc} violations {caught[c]['violation_lines']} {sigs[:2]}", flush=True)
     finally:
-        sh("git -C /repo checkout -- .")
+        sh(f"git -C {repo} checkout -- .")
     res["checks"] = caught
     res["caught_by"] = [c for c, v in caught.items() if v["exit"] == 1]
     res["machinery_errors"] = [c for c, v in caught.items() if v["exit"] not in (0, 1)]
